@@ -5,10 +5,12 @@ import (
 	"fmt"
 	"math"
 	"math/big"
+	"sort"
 	"strconv"
 	"strings"
 	"sync"
 	"time"
+	"verif/harness/gram"
 
 	"github.com/influxdata/influxql"
 
@@ -39,6 +41,93 @@ type c08Case struct {
 	D     int64     `json:"d,omitempty"`
 	Pos   int       `json:"pos,omitempty"`
 	Raw   []byte    `json:"raw,omitempty"`
+	A, B  string    `json:",omitempty"` // Kind "multi": the two spellings written into template Pos of c08multi
+}
+
+// c08multi: texts with several duration literals. Each literal yields its own written value whatever stands in the other
+// slots, in whatever order the clauses come, and however often the same spelling occurs (with or without a sign).
+var c08multi = []struct {
+	tmpl  string
+	entry int // 0 ParseQuery, 1 ParseStatement, 2 ParseExpr
+	want  func(a, b time.Duration) []time.Duration
+}{
+	{"ALTER RETENTION POLICY p ON d SHARD DURATION %[1]s DURATION %[2]s", 1, func(a, b time.Duration) []time.Duration { return []time.Duration{b, a} }},
+	{"ALTER RETENTION POLICY p ON d DURATION %[1]s SHARD DURATION %[2]s", 1, func(a, b time.Duration) []time.Duration { return []time.Duration{a, b} }},
+	{"ALTER RETENTION POLICY p ON d SHARD DURATION %[1]s REPLICATION 2 DURATION %[2]s DEFAULT", 1, func(a, b time.Duration) []time.Duration { return []time.Duration{b, a} }},
+	{"CREATE RETENTION POLICY p ON d DURATION %[1]s REPLICATION 1 SHARD DURATION %[2]s", 1, func(a, b time.Duration) []time.Duration { return []time.Duration{a, b} }},
+	{"CREATE DATABASE d WITH DURATION %[1]s SHARD DURATION %[2]s", 1, func(a, b time.Duration) []time.Duration { return []time.Duration{a, b} }},
+	{"SELECT mean(x) FROM m WHERE time > now() - %[1]s GROUP BY time(%[2]s, -%[1]s)", 1, func(a, b time.Duration) []time.Duration { return []time.Duration{a, b, -a} }},
+	{"SELECT mean(x) FROM m WHERE time > -%[1]s AND time < %[1]s GROUP BY time(%[2]s, %[1]s)", 1, func(a, b time.Duration) []time.Duration { return []time.Duration{-a, a, b, a} }},
+	{"%[1]s - -%[1]s + %[2]s - -%[2]s", 2, func(a, b time.Duration) []time.Duration { return []time.Duration{a, -a, b, -b} }},
+	{"SELECT x FROM m WHERE time > -%[1]s; SELECT mean(x) FROM m WHERE time < %[2]s GROUP BY time(%[1]s)", 0, func(a, b time.Duration) []time.Duration { return []time.Duration{-a, b, a} }},
+}
+
+var c08multiSpellings = []string{"1h", "2d", "15m", "1w", "90m", "1h30m", "0s"}
+
+func c08multiEval(c c08Case) []ev.Finding {
+	if c.Pos < 0 || c.Pos >= len(c08multi) {
+		return nil
+	}
+	m := c08multi[c.Pos]
+	a, errA := gram.ParseDur(c.A)
+	b, errB := gram.ParseDur(c.B)
+	if errA != nil || errB != nil {
+		return nil
+	}
+	text := fmt.Sprintf(m.tmpl, c.A, c.B)
+	var node influxql.Node
+	var err error
+	if p, st := try(func() {
+		switch m.entry {
+		case 0:
+			node, err = influxql.ParseQuery(text)
+		case 1:
+			node, err = influxql.ParseStatement(text)
+		default:
+			node, err = influxql.ParseExpr(text)
+		}
+	}); p != nil {
+		return []ev.Finding{{Sig: "panic:parse", Witness: text, Detail: fmt.Sprint(p) + st, Case: c}}
+	}
+	if err != nil {
+		return nil // a rejection is allowed by this property (acceptance is C01's)
+	}
+	var got []time.Duration
+	switch s := node.(type) {
+	case *influxql.AlterRetentionPolicyStatement:
+		for _, d := range []*time.Duration{s.Duration, s.ShardGroupDuration} {
+			if d == nil {
+				got = append(got, -1)
+			} else {
+				got = append(got, *d)
+			}
+		}
+	case *influxql.CreateRetentionPolicyStatement:
+		got = []time.Duration{s.Duration, s.ShardGroupDuration}
+	case *influxql.CreateDatabaseStatement:
+		got = []time.Duration{-1, s.RetentionPolicyShardGroupDuration}
+		if s.RetentionPolicyDuration != nil {
+			got[0] = *s.RetentionPolicyDuration
+		}
+	default:
+		influxql.WalkFunc(node, func(n influxql.Node) {
+			if d, ok := n.(*influxql.DurationLiteral); ok {
+				got = append(got, d.Val)
+			}
+		})
+	}
+	want := m.want(a, b)
+	key := func(ds []time.Duration) string {
+		x := append([]time.Duration{}, ds...)
+		if m.entry != 1 || len(x) != 2 {
+			sort.Slice(x, func(i, j int) bool { return x[i] < x[j] }) // the walk order is not part of the claim, the values are
+		}
+		return fmt.Sprint(x)
+	}
+	if key(got) != key(want) {
+		return []ev.Finding{{Sig: fmt.Sprintf("stmt:literals-influence-each-other:template-%d", c.Pos), Witness: text, Detail: fmt.Sprintf("the duration literals of the result are %v, written were %v", got, want), Case: c}}
+	}
+	return nil
 }
 
 func (c c08Case) spelling() string {
@@ -200,6 +289,8 @@ var c08positions = []c08pos{
 
 func c08eval(c c08Case) []ev.Finding {
 	switch c.Kind {
+	case "multi":
+		return c08multiEval(c)
 	case "raw":
 		if p, st := try(func() { _, _ = influxql.ParseDuration(string(c.Raw)) }); p != nil {
 			return []ev.Finding{{Sig: "panic:ParseDuration", Witness: fmt.Sprintf("%q", string(c.Raw)), Detail: fmt.Sprint(p) + st, Case: c}}
@@ -502,6 +593,15 @@ func c08run(r *ev.Run) {
 			}
 		}
 	})
+	for pi := range c08multi {
+		for _, a := range c08multiSpellings {
+			for _, b := range c08multiSpellings {
+				c := c08Case{Kind: "multi", Pos: pi, A: a, B: b}
+				do(c, "multi "+fmt.Sprintf(c08multi[pi].tmpl, a, b))
+			}
+		}
+	}
+	r.Set("texts_with_several_duration_literals", len(c08multi)*len(c08multiSpellings)*len(c08multiSpellings))
 	r.Set("spellings_accepted", accepted)
 	r.Set("spellings_rejected", rejected)
 	r.Set("statement_positions", len(c08positions))
